@@ -1,8 +1,8 @@
 (* C01 - every saved document is a well-formed OOXML package: clauses (b)-(d) on M-PKG
    (content-types and package relationship parts present, every part has a content type, part
    names distinct).  Clause (a), well-formedness of the XML text, is in Props/C01 via Model/XmlText. *)
-From Coq Require Import List Bool Arith NArith ZArith.
-From WZ Require Import Model.Pkg Proofs.PkgProofs.
+From Coq Require Import List Bool Arith NArith ZArith String Ascii.
+From WZ Require Import Model.Pkg Proofs.PkgProofs Model.RawPart Proofs.RawPartProofs.
 Import ListNotations.
 
 Theorem C01_inv_new : Inv new_pkg.
@@ -31,3 +31,63 @@ Print Assumptions C01_core_parts_present.
 Example C01_example : exists k', run new_pkg [AddImage FJpeg 7%N true; AddNote false; AddList; SetProps] = Some k'
   /\ defaults k' = [ERels; EXml; EJpeg] /\ overrides k' = [PDoc; PStyles; PFootnotes; PNumbering; PCore; PApp].
 Proof. eexists. vm_compute. repeat split; reflexivity. Qed.
+
+(* ---- parts of an opened package that the library extends (numbering, footnotes, endnotes): M-RAW ---- *)
+
+(* the reader on any well-formed part (a tree of elements, text, comments, processing instructions, at any depth,
+   with anything but elements before and after the root) whose root has the expected local name: the start tag as it
+   stands in the source, whether it declares the prefix w, and the element children of the root - each with exactly the
+   text it spans - in order; text, comments and processing instructions between the children are not kept *)
+Theorem C01_adopted_part_read : forall rl a o c ks pro epi,
+  others pro -> others epi ->
+  read_raw (flat_map toks pro ++ toks (NElem rl a o c ks) ++ flat_map toks epi) rl
+  = Some (mkPart o (declares_w a) (flat_map child_of ks)).
+Proof. exact read_raw_wellformed. Qed.
+Print Assumptions C01_adopted_part_read.
+
+(* a part with another root is not taken over *)
+Theorem C01_adopted_part_other_root : forall rl l a o c ks pro rest,
+  others pro -> String.eqb l rl = false ->
+  read_raw (flat_map toks pro ++ toks (NElem l a o c ks) ++ rest) rl = None.
+Proof. exact read_raw_other_root. Qed.
+Print Assumptions C01_adopted_part_other_root.
+
+(* the tags the writers put around the kept and the new content name the same element: for a start tag "<" q d ...
+   (q free of blanks, "/" and ">", d one of those - every start tag the tokeniser reports has this shape), whatever
+   follows the name (attributes or none, line breaks, self-closing or not, the prefix w declared or not), the written
+   start tag is "<" q followed by a blank, "/" or ">", and the end tag is "</" q ">" *)
+Theorem C01_adopted_part_tags_match : forall q d rest w kids x,
+  name_ok q -> is_delim d = true ->
+  let p := mkPart (str (lt_char :: q ++ d :: rest)) w kids in
+  close_tag p = ("</" ++ str q ++ ">")%string /\
+  exists t, open_tag p x = str (lt_char :: q ++ t) /\ starts_delim t.
+Proof. exact part_tags_match. Qed.
+Print Assumptions C01_adopted_part_tags_match.
+
+(* ids handed out after the takeover are above every numeric id among the kept definitions of the kind, so a new
+   definition never shares its id with a kept one *)
+Theorem C01_adopted_ids_fresh : forall cs c i,
+  In c cs ->
+  (is_abs c = true -> id_of "abstractNumId" c = Some i -> (i < next_abs_id cs)%Z) /\
+  (is_num c = true -> id_of "numId" c = Some i -> (i < next_num_id cs)%Z) /\
+  (forall note, is_real_note note c = true -> id_of "id" c = Some i -> (i < next_note_id note cs)%Z).
+Proof.
+  intros cs c i Hin. split; [|split].
+  - intros Ha Hid. exact (next_abs_id_fresh cs c i Hin Ha Hid).
+  - intros Hn Hid. exact (next_num_id_fresh cs c i Hin Hn Hid).
+  - intros note Hr Hid. exact (proj1 (next_note_id_fresh note cs c i Hin Hr Hid)).
+Qed.
+Print Assumptions C01_adopted_ids_fresh.
+
+Example C01_adopted_example :
+  match read_raw ex_doc "numbering" with
+  | Some p => numbering_with_existing p "urn:w" ["<w:abstractNum/>"%string] ["<w:num/>"%string]
+  | None => ""%string
+  end =
+  "<ns0:numbering xmlns:ns0=""urn:w"" xmlns:w=""urn:w"">
+  <ns0:abstractNum ns0:abstractNumId=""5""><ns0:lvl/></ns0:abstractNum>
+<w:abstractNum/>
+  <ns0:num ns0:numId=""9""/>
+<w:num/>
+</ns0:numbering>"%string.
+Proof. exact ex_written. Qed.
